@@ -261,7 +261,10 @@ impl fmt::Debug for AnyCache<'_> {
 pub(crate) trait AssetMap {
     fn get(&self, id: &str, type_id: TypeId) -> Option<&UntypedHandle>;
 
-    fn insert(&self, entry: CacheEntry) -> &UntypedHandle;
+    /// Stores `entry` unless there is already one with the same key, and
+    /// returns the stored one. `on_insert` is called if (and only if) `entry`
+    /// was stored, before other threads can get it.
+    fn insert(&self, entry: CacheEntry, on_insert: impl FnOnce()) -> &UntypedHandle;
 
     fn contains_key(&self, id: &str, type_id: TypeId) -> bool;
 }
@@ -304,9 +307,22 @@ pub(crate) trait RawCache: Sized {
 
         let id = SharedString::from(id);
         let cache = AnyCache { cache: self };
-        let entry = crate::asset::load_and_record(cache, id, typ, true)?;
+        let (entry, _deps) = crate::asset::load_and_record(cache, id.clone(), typ);
+        let entry = entry?;
 
-        Ok(self.assets().insert(entry))
+        // Only a value that is actually stored in the cache can be reloaded: if
+        // another thread stored one under this key in the meantime (with `load`
+        // or `get_or_insert`), `insert` keeps it and drops ours. Registering
+        // while the entry is being stored also ensures that the reloader is
+        // told about it before any other thread can see it.
+        let handle = self.assets().insert(entry, || {
+            #[cfg(feature = "hot-reloading")]
+            if let (Some(deps), Some(reloader)) = (_deps, self.reloader()) {
+                reloader.add_asset(id, deps, typ);
+            }
+        });
+
+        Ok(handle)
     }
 }
 
@@ -375,12 +391,21 @@ impl<T: RawCache> Cache for T {
             }
         }
 
-        crate::asset::load_and_record(self._as_any_cache(), id, typ, false)
+        let (entry, _deps) = crate::asset::load_and_record(self._as_any_cache(), id.clone(), typ);
+
+        // The value is not stored in the cache, so there is nothing to reload,
+        // but other assets may depend on it
+        #[cfg(feature = "hot-reloading")]
+        if let (Ok(_), Some(deps), Some(reloader)) = (&entry, _deps, self.reloader()) {
+            reloader.add_owned_asset(id, deps, typ);
+        }
+
+        entry
     }
 
     #[inline]
     fn insert(&self, entry: CacheEntry) -> &UntypedHandle {
-        self.assets().insert(entry)
+        self.assets().insert(entry, || ())
     }
 }
 
